@@ -523,3 +523,41 @@ func (s *State) CNAME(h int) V {
 	pan, _ := guarded(func() string { return fmt.Sprintf("cname %v", before) }, func() { name, err = c.CNAME() })
 	return s.emit(V{"op": "cname", "h": h, "ok": !pan && err == nil, "panic": pan, "out": abs.Bytes([]byte(name)), "post": post(before, x)})
 }
+
+type lenner16 interface{ Len() uint16 }
+type lennerInt interface{ Len() int }
+
+// LenAcc calls the Len() accessor where the type offers one (TransportLayerCC, CCFeedbackReport).
+func (s *State) LenAcc(h int) (V, bool) {
+	x := s.Pk[h]
+	before := absAny(x)
+	n := -1
+	var pan bool
+	switch p := x.(type) {
+	case lenner16:
+		pan, _ = guarded(func() string { return fmt.Sprintf("len %v", before) }, func() { n = int(p.Len()) })
+	case lennerInt:
+		pan, _ = guarded(func() string { return fmt.Sprintf("len %v", before) }, func() { n = p.Len() })
+	default:
+		return nil, false
+	}
+	if pan {
+		n = -2
+	}
+	return s.emit(V{"op": "lenacc", "h": h, "out": n, "post": post(before, x)}), true
+}
+
+// MarshalTo calls ReceiverEstimatedMaximumBitrate.MarshalTo with a buffer of
+// the given size filled with 0xEE; out = the buffer afterwards, n = the count returned.
+func (s *State) MarshalTo(h int, size int) (V, bool) {
+	p, ok := s.Pk[h].(*rtcp.ReceiverEstimatedMaximumBitrate)
+	if !ok {
+		return nil, false
+	}
+	before := absAny(p)
+	buf := bytes.Repeat([]byte{0xEE}, size)
+	var n int
+	var err error
+	pan, _ := guarded(func() string { return fmt.Sprintf("marshalto %v", before) }, func() { n, err = p.MarshalTo(buf) })
+	return s.emit(V{"op": "marshalto", "h": h, "size": size, "ok": !pan && err == nil, "n": n, "out": abs.Bytes(buf), "panic": pan, "post": post(before, p)}), true
+}
